@@ -409,7 +409,6 @@ func minInt(a, b int) int {
 	return b
 }
 
-
 // c02slowSmall: a non-reading client pipelines thousands of requests with small
 // replies in batches, so that after the socket has filled up the proxy keeps
 // appending several small replies per flush to a short outbound backlog.
